@@ -110,7 +110,7 @@ class Check:
         return r
 
     # rule functions that emit further rule ids (shared instances of another property's rules)
-    EMITS = {"C11.R8": {"C11.R9", "C11.R10"}, "C13.R7": {"C13.R8"}, "C14.R8": {"C14.R9", "C14.R10"}, "C15.R5": {"C15.R6"}}
+    EMITS = {"C11.R8": {"C11.R9", "C11.R10", "C11.R11"}, "C13.R7": {"C13.R8"}, "C14.R8": {"C14.R9", "C14.R10"}, "C15.R5": {"C15.R6"}}
 
     def wants(self, rid):
         return self.only_rule is None or self.only_rule == rid or self.only_rule in self.EMITS.get(rid, ())
